@@ -1,7 +1,8 @@
 (* C16 (part)  Alignment provenance over the address arithmetic (Model/Codec.v, equal to the regenerated Rust functions
    by Proofs/GenEq.v): with block size <= cluster size (and <= slice size), a block-aligned guest offset gives a
    block-aligned host offset for data I/O through a cluster-aligned (specification-valid) L2 entry, and L2 / refcount
-   slices start at block-aligned host offsets in cluster-aligned tables.  Lengths and buffer addresses, the bounce
+   slices start at block-aligned host offsets in cluster-aligned tables, have a block-multiple length and end inside their
+   table cluster.  Data lengths and buffer addresses, the bounce
    buffers of compressed reads and the header write are not covered by a theorem: every request of sampled histories
    is checked against the alignment predicate (checks/c16.py). *)
 From Coq Require Import NArith List Bool.
@@ -27,6 +28,23 @@ Theorem C16_rb_slice_offset_aligned : forall i hc tbl,
   (tbl + hc_rb_slice_off_in_table i hc) mod 2 ^ block_size_shift i = 0.
 Proof. exact rb_slice_offset_aligned. Qed.
 
+Theorem C16_l2_slice_inside_table : forall i g,
+  info_rng i -> sg_l2_slice_off_in_table i g + 2 ^ l2_slice_bits i <= 2 ^ cluster_shift i.
+Proof. exact l2_slice_inside_table. Qed.
+
+Theorem C16_rb_slice_inside_table : forall i h,
+  info_rng i -> hc_rb_slice_off_in_table i h + 2 ^ rb_slice_bits i <= 2 ^ cluster_shift i.
+Proof. exact rb_slice_inside_table. Qed.
+
+Theorem C16_slice_len_aligned : forall i,
+  info_rng i ->
+  (block_size_shift i <= l2_slice_bits i -> 2 ^ l2_slice_bits i mod 2 ^ block_size_shift i = 0) /\
+  (block_size_shift i <= rb_slice_bits i -> 2 ^ rb_slice_bits i mod 2 ^ block_size_shift i = 0).
+Proof. intros i R. split; [apply l2_slice_len_aligned|apply rb_slice_len_aligned]; exact R. Qed.
+
 Print Assumptions C16_data_offset_aligned.
 Print Assumptions C16_l2_slice_offset_aligned.
 Print Assumptions C16_rb_slice_offset_aligned.
+Print Assumptions C16_l2_slice_inside_table.
+Print Assumptions C16_slice_len_aligned.
+Print Assumptions C16_rb_slice_inside_table.
